@@ -4,7 +4,8 @@
    signal-to-noise ratio.  One spec per line:
      <id> <ch> <rate> <managed> <qbits32 | nominal> <nsamples> <signal> <seed>
    signals: 0 multi-tone (distinct per channel)  1 sweep  2 low-passed noise
-            3 click train (distinct phase per channel)  4 tone bursts with silence */
+            3 click train (distinct phase per channel)  4 tone bursts with silence
+            5 one channel at a time (100 Hz tone, the others digitally silent) */
 #include "vcommon.h"
 #include "vorbis/codec.h"
 #include "vorbis/vorbisenc.h"
@@ -22,6 +23,7 @@ static void gen(float **in,int ch,long n,int sig,long rate,uint64_t seed){
       case 1: { double ph=2*M_PI*(0.002*t+0.5*(0.08+0.01*c)/n*t*t); x=0.5*sin(ph); } break;
       case 2: { double u=(double)(vc_rng()>>11)/9007199254740992.0*2-1; lp_state[c]+=0.15*(u-lp_state[c]); x=1.6*lp_state[c]; } break;
       case 3: x=((i%1777)==(137*(c+1))%1777)?0.9:0.0; break;
+      case 5: x=(i*ch/(n>0?n:1)==c)?0.5*sin(2*M_PI*100.0/(double)rate*t):0.0; break;   /* one channel at a time, 100 Hz, the others digitally silent */
       default: x=(((i/4000)%2)==(c%2))?0.5*sin(2*M_PI*f2*t):0.0; break;
       }
       in[c][i]=(float)x;
